@@ -243,7 +243,16 @@ static int decrunch_compress(HIO_HANDLE * in, void ** out, long * outlen)
 					}
 
 					if (outpos >= outsize) {
-						outsize += OBUFSIZ;
+						/* Same output ceiling as the other
+						 * depackers; grow geometrically so the
+						 * copying done by realloc stays linear. */
+						if (outsize >= LIBXMP_DEPACK_LIMIT) {
+							free(outbuf);
+							return -1;
+						}
+						outsize += MAX(OBUFSIZ, outsize >> 1);
+						if (outsize > LIBXMP_DEPACK_LIMIT)
+							outsize = LIBXMP_DEPACK_LIMIT;
 
 						tmp = (char_type *) realloc(outbuf, outsize + 2048);
 						if (!tmp) {
